@@ -111,6 +111,9 @@ pub struct Obs {
     /// the parser's names of the anonymous scopes of the entry file (braces, loops, imports), in post-order
     #[serde(skip_serializing_if = "Option::is_none")]
     pub scopes: Option<Vec<String>>,
+    /// the same for every other file of the project, keyed by the file's name relative to the project root
+    #[serde(skip_serializing_if = "Option::is_none")]
+    pub file_scopes: Option<std::collections::BTreeMap<String, Vec<String>>>,
     pub npasses: usize,
 }
 
@@ -268,6 +271,18 @@ pub fn run_case(case: &Case) -> Obs {
         let mut ids = vec![];
         scope_ids(&tree.main_file().tokens, &mut ids);
         obs.scopes = Some(ids);
+        let mut per_file = std::collections::BTreeMap::new();
+        for (path, pf) in &tree.files {
+            if *path == tree.main_file {
+                continue;
+            }
+            let mut ids = vec![];
+            scope_ids(&pf.tokens, &mut ids);
+            let name = path.to_string_lossy().replace('\\', "/");
+            let name = name.trim_start_matches("/proj/").trim_start_matches("./").trim_start_matches('/').to_string();
+            per_file.insert(name, ids);
+        }
+        obs.file_scopes = Some(per_file);
     }
     obs.stage = "codegen".into();
 
